@@ -96,9 +96,15 @@ type dcfg struct {
 	mask int
 	ask  bool // remote uses Ask instead of Tell
 	raw  bool // raw peer injects invalid frames
+	// slots of the transport's receive queue (0 = 16). With a single slot every message
+	// reuses the buffer of the previous one, as a datagram socket's read buffer does.
+	queueLen int
 }
 
 func (c dcfg) name() string {
+	if c.queueLen > 0 {
+		return fmt.Sprintf("dispatch-%s-open%03b-ask%v-raw%v-queue%d", c.kit.name, c.mask, c.ask, c.raw, c.queueLen)
+	}
 	return fmt.Sprintf("dispatch-%s-open%03b-ask%v-raw%v", c.kit.name, c.mask, c.ask, c.raw)
 }
 
@@ -110,7 +116,11 @@ func scenario(c dcfg, pb int) *explore.Scenario {
 	}
 	sc.Body = func(x *vrt.Exec) {
 		l := led(x)
-		realm := memswarm.NewRealm(memswarm.WithQueueLen(16))
+		ql := c.queueLen
+		if ql == 0 {
+			ql = 16
+		}
+		realm := memswarm.NewRealm(memswarm.WithQueueLen(ql))
 		local, remote, raw := realm.NewSwarm(), realm.NewSwarm(), realm.NewSwarm()
 		locals := c.kit.open(local, c.mask)
 		remotes := c.kit.open(remote, 7)
@@ -161,6 +171,11 @@ func scenario(c dcfg, pb int) *explore.Scenario {
 					}
 				} else {
 					remotes[i].Tell(bg, local.LocalAddr(), p2p.IOVec{payload})
+					if c.queueLen > 0 {
+						// a full queue drops: let each message be consumed before the next reuses the slot
+						want := i + 1
+						hx.WaitUntil(&l.cell, "remote: previous message consumed", func() bool { return len(l.seen) >= want })
+					}
 				}
 			}
 			l.cell.Touch()
@@ -280,6 +295,13 @@ func main() {
 				scs = append(scs, sc)
 			}
 		}
+	}
+	// one receive buffer reused for every message (a channel identifier must not be remembered
+	// by reference into it)
+	for _, k := range ks {
+		sc := scenario(dcfg{kit: k, mask: 7, ask: false, raw: false, queueLen: 1}, pb)
+		sc.MaxExecs = evid.Pick(run, 20000, 400000)
+		scs = append(scs, sc)
 	}
 	codecStates := run.Get("states")
 	codecTrans := run.Get("transitions")
